@@ -30,6 +30,10 @@ func main() {
 			childMain(os.Args[i+1])
 			return
 		}
+		if a == "-killchild" && i+1 < len(os.Args) {
+			killChildMain(os.Args[i+1])
+			return
+		}
 	}
 	run = vf.Start("C20", "exploration")
 	r := run
@@ -51,6 +55,7 @@ func main() {
 	r.Guard("setup uris", func() { setupURIs(r) })
 	t2 := time.Now()
 	r.Guard("structure sweep", func() { structureSweep(r) })
+	r.Guard("killed starts", func() { killedStarts(r) })
 	t3 := time.Now()
 
 	// ---- part 1
